@@ -70,9 +70,12 @@ WithCall(m, c) == [m EXCEPT !.call = c]
 CallText(c) == IF c.kind = "" THEN "" ELSE "=>" \o c.kind \o "(" \o c.first \o "," \o Num(c.n) \o ")" \o (IF c.aw THEN ".await" ELSE "")
 MText(m) == m.name \o "(" \o m.recv \o (IF m.implp THEN "+__impl" ELSE "") \o "," \o Num(m.nparams) \o ")" \o m.form \o "#" \o Num(m.nattrs) \o CallText(m.call)
 
-\* receiver the converter gives a function (converter.rs generate_params): Insert for no_deps, Rewrite otherwise;
-\* a reference type at the OUTERMOST level becomes `&self`, anything else (also `(&D)`) a by-value `self`
-FnRecv(f, nodeps) == IF nodeps THEN "ref" ELSE IF f.first.wrap # <<>> /\ f.first.wrap[1] \in {"ref", "reflife"} THEN "ref" ELSE "value"
+\* receiver the converter gives a function (converter.rs generate_params): Insert for no_deps, Rewrite otherwise; parentheses
+\* (and the invisible groups of macro fragments) are looked through (since a "fix:" commit; `(&D)` used to become a by-value
+\* `self`), then a reference type becomes `&self`, anything else a by-value `self`
+Unparen(w) == SelectSeq(w, LAMBDA x : x # "paren")
+FnRecv(f, nodeps) == IF nodeps THEN "ref"
+                     ELSE LET w == Unparen(f.first.wrap) IN IF w # <<>> /\ w[1] \in {"ref", "reflife"} THEN "ref" ELSE "value"
 FnArity(f, nodeps) == IF nodeps THEN f.nparams ELSE f.nparams - 1
 \* rk: "self" (fn, mod) / "static" / "dyn" (impl blocks)
 TraitMethodOfFn(f, nodeps, rk, sub, o, withcfg) ==
